@@ -111,7 +111,7 @@ def generate(rng, index, tier):
             hist.append(req)
     if not any(h['op'] == 'request' for h in hist):
         hist.append({'op': 'request', 'dump': 0, 'what': 'kevents'})
-    return {'dumps': dumps, 'history': hist}
+    return {'dumps': dumps, 'history': hist, 'earlier_other': rng.chance(0.12)}
 
 
 def apply_filters(p, f):
@@ -157,6 +157,12 @@ def execute(scn):
             items, exc = common.drain(lambda: (p.kevents if what == 'kevents' else p.os_log_events)(SimReader(files[di])))
             refs[(di, what)] = (items, exc)
         return refs[(di, what)]
+    if scn.get('earlier_other'):
+        for di_, d_ in enumerate(scn['dumps']):
+            _d, st_, tb_ = worlds.dump_bytes(d_)
+            common.pollute_other_objects(tb_, st_, files[di_])
+        bump('fault:residue')
+        bump('earlier_other_objects')
     p = tool.pk_mod.PyKdebugParser()
     cur = {}
     viols = []
